@@ -85,3 +85,38 @@ Example C17_nonvacuous :
   | Err _ => false
   end = true.
 Proof. vm_compute. reflexivity. Qed.
+
+(* FAILURE PATHS (Model/ExperimentAbort.v): operations aborted inside their repetition loop after any number of completed
+   randomizations (a test function raises an exception or Ctrl-C), and operations rejected before they start, mixed freely
+   with completed ones: every reachable state still has the original responses, strata and randomizer kind and an assignment
+   that is a rearrangement of the original labels ... *)
+From PV Require Import Model.ExperimentAbort Proofs.ExperimentAbortProofs.
+Theorem C17_histories_with_aborted_and_rejected_calls_keep_the_invariant :
+  forall e0, wf e0 -> forall hs e', hrun e0 hs = Ok e' ->
+  response e' = response e0 /\ strata e' = strata e0 /\ kind e' = kind e0 /\
+  perm_eq (group e') (group e0) /\ size (group e') = size (group e0).
+Proof.
+  intros e0 w hs e' H. destruct (@hrun_Inv e0 w hs e0 e' (Inv_refl e0) H) as [r s k p z]. repeat split; assumption.
+Qed.
+Print Assumptions C17_histories_with_aborted_and_rejected_calls_keep_the_invariant.
+
+(* ... within EACH stratum for the stratified randomizer ... *)
+Theorem C17_aborted_calls_conserve_labels_within_each_stratum :
+  forall e0 st hs e', wf e0 -> strata e0 = Some st -> kind e0 = Strat -> hrun e0 hs = Ok e' ->
+  forall k, perm_eq (stratum_labels st (group e') k) (stratum_labels st (group e0) k).
+Proof.
+  intros e0 st hs e' w s0 k0 H.
+  exact (@hrun_within e0 st w s0 k0 hs e0 e' (Inv_refl e0) (fun k => perm_refl _) H).
+Qed.
+Print Assumptions C17_aborted_calls_conserve_labels_within_each_stratum.
+
+(* ... and a call aborted with in_place=False, or rejected, leaves the caller's Experiment exactly as it was (re-seeded if a
+   usable seed was given) *)
+Theorem C17_failed_call_without_in_place_changes_nothing : forall e h e', hstep e h = Ok e' ->
+  match h with
+  | Aborted false rs _ _ => e' = reseeded e rs
+  | Rejected => e' = e
+  | _ => True
+  end.
+Proof. exact failed_not_in_place. Qed.
+Print Assumptions C17_failed_call_without_in_place_changes_nothing.
